@@ -181,24 +181,40 @@ struct World {
     log_path: String,
 }
 
-const IGNORED_GAUGE_SUFFIXES: &[&str] = &[
-    "_percent",
-    ".capacity",
-    "client.connections_max",
-    "process.uptime_seconds",
-    "server.live",
-    "cluster.available_backends",
-    "cluster.total_backends",
-    "cluster.available_recovered",
-    "cluster.no_available_backends",
-    "backend.available",
-    "tls.cert.min_expires_at_seconds",
+/// The resource gauges of the worker (proxy level, and per cluster / backend
+/// where they exist). Everything else QueryMetrics returns (capacities,
+/// percentages, uptime, availability, certificates, counters, histograms) is
+/// not a footprint and is not compared.
+const RESOURCE_GAUGES: &[&str] = &[
+    "client.connections",
+    "slab.entries",
+    "buffer.in_use",
+    "http.active_requests",
+    "websocket.active_requests",
+    "protocol.http",
+    "protocol.https",
+    "protocol.tcp",
+    "protocol.ws",
+    "protocol.wss",
+    "protocol.tls.handshake",
+    "protocol.proxy.expect",
+    "protocol.proxy.relay",
+    "protocol.proxy.send",
+    "backend.connections",
+    "backend.pool.size",
+    "backend.flow_control.paused",
+    "connections_per_backend",
+    "accept_queue.connections",
+    "accept_queue.backpressure",
+    "h2.connection.active_streams",
+    "h2.connection.pending_window_updates",
+    "h2.connection.window_bytes",
+    "udp.active_flows",
 ];
 
 fn tracked(name: &str) -> bool {
-    !IGNORED_GAUGE_SUFFIXES.iter().any(|s| name.ends_with(s))
-        && !name.contains("configuration.")
-        && !name.contains("health_check.")
+    let base = name.rsplit('/').next().unwrap_or(name);
+    RESOURCE_GAUGES.contains(&base)
 }
 
 static LOG_SEQ: AtomicU64 = AtomicU64::new(0);
@@ -452,7 +468,23 @@ impl World {
             .unwrap_or_default();
         match gate {
             Gate::Passed => {
+                // sozu closes a timed-out holder before it admits the newcomer, so
+                // its FIN is visible by now: look again before blaming the gate
+                let mut still = true;
                 if exp == Exp::Refuse {
+                    for h in &holders {
+                        if let Some(cl) = self.clients.get_mut(h) {
+                            if peer_closed(&mut cl.conn) {
+                                still = false;
+                            }
+                        }
+                    }
+                    if !still {
+                        self.prune_closed();
+                        self.tag("holder-timed-out-meanwhile");
+                    }
+                }
+                if exp == Exp::Refuse && still {
                     self.alarm(
                         "per-ip-limit-exceeded",
                         format!("{ctx}: client {key} was served by cluster {cluster} although {} open connection(s) {holders:?} from 127.0.0.1 already hold its {l} slot(s)", holders.len()),
@@ -1442,6 +1474,29 @@ impl World {
                 format!("{proto} storm: {served1} of {n} client connections were being served at the same time with max_connections = {m}"),
             );
         }
+        // while they are all being served the gauges cannot read less (a gauge
+        // that does means a double decrement somewhere: the clamp at 0 hides it later)
+        if served1 > 0 {
+            if let Some(g) = self.gauges() {
+                let all_open = held.iter().all(|(i, _)| clients[*i].as_mut().map(|c| !peer_closed(c)).unwrap_or(false));
+                if all_open {
+                    let floors: &[&str] = if http {
+                        &["client.connections", "backend.connections", "protocol.http", "http.active_requests"]
+                    } else {
+                        &["client.connections", "backend.connections", "protocol.tcp"]
+                    };
+                    for k in floors {
+                        let v = g.get(*k).copied().unwrap_or(0);
+                        if v < served1 as u64 {
+                            self.alarm(
+                                format!("gauge-below-live-count:{k}"),
+                                format!("{proto} storm: {served1} connections are being served right now (request at the backend, client open) but gauge {k} = {v}"),
+                            );
+                        }
+                    }
+                }
+            }
+        }
         if served1 == 0 {
             self.alarm(
                 "accept-not-resumed",
@@ -1826,7 +1881,12 @@ impl World {
             }
             prev = Some(g);
             if Instant::now() >= until {
-                return Err("warm-up: the worker did not become idle".into());
+                let g = prev.unwrap_or_default();
+                let v = |k: &str| g.get(k).copied().unwrap_or(0);
+                return Err(format!(
+                    "warm-up: 8 s after one GET per cluster and one TCP session, all closed, the worker is not idle: client.connections = {}, backend.connections = {}, http.active_requests = {}, slab.entries = {}",
+                    v("client.connections"), v("backend.connections"), v("http.active_requests"), v("slab.entries")
+                ));
             }
             std::thread::sleep(Duration::from_millis(30));
         }
@@ -1946,13 +2006,23 @@ fn run_case_inner(ops: &[String]) -> CaseRun {
                 break;
             }
             Err(e) => {
+                // a worker that never becomes idle is deterministic; anything else
+                // (a 504 because this harness was descheduled for a second on the
+                // shared machine) is tried again on a fresh worker
+                let stuck = e.contains("is not idle");
                 err = e;
+                if stuck {
+                    break;
+                }
                 std::thread::sleep(Duration::from_millis(200));
             }
         }
     }
     let Some(mut w) = world else {
-        run.oracle.push(("harness-setup-failed".into(), err));
+        // a warm-up that fails is the worker misbehaving on the very first
+        // sessions (each was retried on a fresh worker), not a rig problem
+        let class = if err.starts_with("warm-up") { "warm-up-failed" } else { "harness-setup-failed" };
+        run.oracle.push((class.into(), err));
         return run;
     };
     w.out.push(format!("{} -> started", ops[0]));
@@ -2026,7 +2096,45 @@ fn weighted<'a>(rng: &mut Rng, xs: &[(&'a str, u64)]) -> &'a str {
     xs[0].0
 }
 
-fn gen_mix_atom(rng: &mut Rng, tls: bool, slow_left: &mut u32) -> String {
+/// what the generator believes is open (keeps the "end" atoms meaningful)
+#[derive(Default)]
+struct GenOpen {
+    h: BTreeSet<u64>,
+    t: BTreeSet<u64>,
+}
+
+fn pick_open(rng: &mut Rng, set: &BTreeSet<u64>) -> Option<u64> {
+    if set.is_empty() {
+        None
+    } else {
+        set.iter().nth(rng.below(set.len() as u64) as usize).copied()
+    }
+}
+
+fn gen_mix_atom(rng: &mut Rng, tls: bool, slow_left: &mut u32, open: &mut GenOpen) -> String {
+    let op = gen_mix_atom_raw(rng, tls, slow_left, open);
+    // follow the effect on the open sets
+    let f: Vec<&str> = op.split_whitespace().collect();
+    let id = f.get(2).and_then(|x| x.parse::<u64>().ok());
+    match (f[0], f.get(1).copied().unwrap_or(""), id) {
+        ("h", "get" | "post", Some(c)) => {
+            open.h.insert(c);
+        }
+        ("h", _, Some(c)) => {
+            open.h.remove(&c);
+        }
+        ("t", "open" | "ping", Some(c)) => {
+            open.t.insert(c);
+        }
+        ("t", _, Some(c)) => {
+            open.t.remove(&c);
+        }
+        _ => {}
+    }
+    op
+}
+
+fn gen_mix_atom_raw(rng: &mut Rng, tls: bool, slow_left: &mut u32, open: &GenOpen) -> String {
     let c = rng.below(4);
     let cl = *rng.pick(&["a", "a", "b"]);
     let kind = weighted(
@@ -2049,13 +2157,22 @@ fn gen_mix_atom(rng: &mut Rng, tls: bool, slow_left: &mut u32) -> String {
         "dead" | "nobackend" | "nohost" | "bad" | "partial-close" | "partial-reset" | "connect-close" => {
             format!("h {kind} {c}")
         }
-        "hend" => format!("h {} {c}", rng.pick(&["close", "reset", "shutwr"])),
+        "hend" => match pick_open(rng, &open.h) {
+            Some(c) => format!("h {} {c}", rng.pick(&["close", "reset", "shutwr"])),
+            None => format!("h get {c} {cl} 1"),
+        },
         "topen" => format!("t open {c}"),
-        "tping" => format!("t ping {c}"),
-        "tend" => format!(
-            "t {} {c}",
-            rng.pick(&["close-client", "reset-client", "close-backend", "reset-backend", "shutwr-client", "shutwr-backend"])
-        ),
+        "tping" => match pick_open(rng, &open.t) {
+            Some(c) => format!("t ping {c}"),
+            None => format!("t open {c}"),
+        },
+        "tend" => match pick_open(rng, &open.t) {
+            Some(c) => format!(
+                "t {} {c}",
+                rng.pick(&["close-client", "reset-client", "close-backend", "reset-backend", "shutwr-client", "shutwr-backend"])
+            ),
+            None => format!("t open {c}"),
+        },
         "tdead" => format!("t dead {c}"),
         "tls" => format!("s {}", rng.pick(&["ok", "ok", "abort", "hsonly", "close"])),
         _ => {
@@ -2098,9 +2215,10 @@ fn gen_case(rng: &mut Rng, thorough: bool) -> Vec<String> {
         };
         ops.push(cfg.line());
         let mut slow = if thorough { 4 } else { 2 };
+        let mut open = GenOpen::default();
         let n = rng.range(5, if thorough { 18 } else { 12 });
         for _ in 0..n {
-            ops.push(gen_mix_atom(rng, cfg.tls, &mut slow));
+            ops.push(gen_mix_atom(rng, cfg.tls, &mut slow, &mut open));
             if rng.chance(1, 12) {
                 ops.push("check".into());
             }
@@ -2120,6 +2238,7 @@ fn gen_case(rng: &mut Rng, thorough: bool) -> Vec<String> {
         };
         ops.push(cfg.line());
         let n = rng.range(10, if thorough { 36 } else { 24 });
+        let mut topen: BTreeSet<u64> = BTreeSet::new();
         for _ in 0..n {
             let c = rng.below(6);
             let cl = *rng.pick(&["a", "a", "b"]);
@@ -2142,11 +2261,24 @@ fn gen_case(rng: &mut Rng, thorough: bool) -> Vec<String> {
                             ops.push(format!("h close {i}"));
                             ops.push(format!("t close-client {i}"));
                         }
+                        topen.clear();
                     }
                     ops.push(format!("limit {k}"));
                 }
-                "topen" => ops.push(format!("t open {c}")),
-                "tclose" => ops.push(format!("t {} {c}", rng.pick(&["close-client", "close-backend", "reset-client"]))),
+                "topen" => {
+                    topen.insert(c);
+                    ops.push(format!("t open {c}"))
+                }
+                "tclose" => match pick_open(rng, &topen) {
+                    Some(c) => {
+                        topen.remove(&c);
+                        ops.push(format!("t {} {c}", rng.pick(&["close-client", "close-backend", "reset-client"])))
+                    }
+                    None => {
+                        topen.insert(c);
+                        ops.push(format!("t open {c}"))
+                    }
+                },
                 "upgrade" => ops.push(format!("h upgrade-{} {c} {cl}", rng.pick(&["client", "backend"]))),
                 "abort" => ops.push(format!("h {} {c} {cl}", rng.pick(&["abortwait-close", "abortmid-reset", "beclose", "bepartial"]))),
                 "default" => ops.push(format!("h {} {c}", rng.pick(&["dead", "nobackend", "nohost", "bad"]))),
@@ -2174,7 +2306,7 @@ fn gen_case(rng: &mut Rng, thorough: bool) -> Vec<String> {
         for _ in 0..rounds {
             if rng.chance(1, 2) {
                 let mut slow = 0;
-                ops.push(gen_mix_atom(rng, false, &mut slow));
+                ops.push(gen_mix_atom(rng, false, &mut slow, &mut GenOpen::default()));
             }
             let proto = *rng.pick(&["http", "http", "tcp"]);
             let n = max + rng.range(1, 8) as usize;
@@ -2227,7 +2359,7 @@ fn reenable_witness() -> Vec<String> {
 
 // ------------------------------------------------------------------- main --
 
-const RULE: &str = "one case = one real sozu worker thread (rig) with HTTP, TCP (+HTTPS) listeners, clusters a,b (live mock backends), d (backend refuses), n (no backend), t/td (TCP), configured from the case's first op (max_connections, max_connections_per_ip, per-cluster override, timeouts, zombie interval, evict_on_queue_full); then a seeded sequence of session atoms: families mix 50% (H1 keep-alive/close/POST, client abort before/while/after the backend answers, backend close/reset/partial/stall, websocket upgrade, 404/503/400 answers, partial and silent clients, TCP relay/half-close/reset/dead backend/idle, TLS ok/abort/handshake-only/garbage/cut hello/idle, 1 s timeouts), perip 32% (per-(cluster, source IP) limit 0..3, raised/lowered/disabled at runtime, cluster override, checked against a reference monitor of slot holders), storm 18% (max_connections 1..10, more clients than the limit, load drop, fresh clients, eviction on/off). After every case: all peers closed, every gauge of QueryMetrics (except capacities/percent/uptime/availability) must equal the idle baseline taken after a warm-up, worker log must not report a gauge underflow, Status watchdog, then a slot probe (limit 1: each cluster admits exactly one connection) and the footprint again. non-trivial = at least one session reached a backend and the footprint was compared; distinct = distinct op list";
+const RULE: &str = "one case = one real sozu worker thread (rig) with HTTP, TCP (+HTTPS) listeners, clusters a,b (live mock backends), d (backend refuses), n (no backend), t/td (TCP), configured from the case's first op (max_connections, max_connections_per_ip, per-cluster override, timeouts, zombie interval, evict_on_queue_full); then a seeded sequence of session atoms: families mix 50% (H1 keep-alive/close/POST, client abort before/while/after the backend answers, backend close/reset/partial/stall, websocket upgrade, 404/503/400 answers, partial and silent clients, TCP relay/half-close/reset/dead backend/idle, TLS ok/abort/handshake-only/garbage/cut hello/idle, 1 s timeouts), perip 32% (per-(cluster, source IP) limit 0..3, raised/lowered/disabled at runtime, cluster override, checked against a reference monitor of slot holders), storm 18% (max_connections 1..10, more clients than the limit, load drop, fresh clients, eviction on/off). After every case: all peers closed, every resource gauge of QueryMetrics (client.connections, slab.entries, buffer.in_use, http/websocket.active_requests, protocol.*, backend.connections, backend.pool.size, connections_per_backend, accept_queue.*, h2.connection.*) must equal the idle baseline taken after a warm-up, worker log must not report a gauge underflow, Status watchdog, then a slot probe (limit 1: each cluster admits exactly one connection) and the footprint again. non-trivial = at least one session reached a backend and the footprint was compared; distinct = distinct op list";
 
 fn judge_fail(ops: &[String], run: &CaseRun, case: i64) -> Vec<Value> {
     run.oracle
@@ -2330,7 +2462,7 @@ fn main() {
     }
 
     let thorough = args.thorough();
-    let n = args.cases.unwrap_or(if thorough { 5000 } else { 500 });
+    let n = args.cases.unwrap_or(if thorough { 2500 } else { 300 });
     let mut cases: Vec<Vec<String>> = corpus();
     let ncorpus = cases.len() as i64;
     for i in 0..n {
